@@ -155,6 +155,11 @@ func checkFile(file []byte) []oracle.Failure {
 	var out []oracle.Failure
 	for _, sk := range sourceKinds {
 		sk := sk
+		if sk.plan != nil && len(file) > 32768 {
+			// files with thousands of pages: the listing from every page start is
+			// quadratic already; fragmenting sources only for files up to 32 KiB
+			continue
+		}
 		out = append(out, checkFileVia(file, sk.name, func() io.ReadSeeker {
 			if sk.plan == nil {
 				return bytes.NewReader(file)
